@@ -9,6 +9,7 @@ invariance under field scaling and periodic translation, plane-wave accuracy of 
 for any spacing, droplet-counting formula."""
 from __future__ import annotations
 
+import itertools
 import math
 
 import numpy as np
@@ -36,7 +37,9 @@ def make_field(rng, kind=None):
         shape = [shape[0], shape[0] + 8]
     dx = rng.choice([1.0, 0.5, 0.39])
     grid = CartesianGrid([[0, n * dx] for n in shape], shape, periodic=True)
-    kind = kind or rng.choice(["noise", "waves", "droplets"])
+    kind = kind or rng.choice(["noise", "waves", "droplets", "ring+blob"])
+    if kind == "ring+blob" and dim == 1:
+        kind = "droplets"
     n = int(np.prod(shape))
     if kind == "noise":
         data = np.array([rng.uniform(-1, 1) for _ in range(n)]).reshape(shape)
@@ -52,6 +55,14 @@ def make_field(rng, kind=None):
                 m[0] = 2
             data += rng.uniform(0.2, 1) * np.cos(2 * np.pi * sum(m[a] * idx[a] / shape[a] for a in range(dim)) + rng.uniform(0, 6))
         data += rng.choice([0.0, 0.7])
+    elif kind == "ring+blob":
+        # an annulus with a small blob at its centre: two NON-winding components whose equal-volume spheres overlap,
+        # so the overlap filter (periodic metric!) decides the count
+        idx = np.indices(shape)
+        c = [rng.uniform(0, s) for s in shape]
+        ro = rng.uniform(0.28, 0.36) * min(shape)
+        d2 = sum(((idx[a] + 0.5 - c[a] + shape[a] / 2) % shape[a] - shape[a] / 2) ** 2 for a in range(dim))
+        data = (((d2 < ro**2) & (d2 > (ro - 2.2) ** 2)) | (d2 < rng.uniform(1.2, 2.2) ** 2)).astype(float)
     else:
         k = rng.randint(1, 3)
         L = [n * dx for n in shape]
@@ -150,8 +161,10 @@ def run_cases(ck: Check, n: int):
 
                 mask = data > (data.min() + data.max()) / 2
                 comps = components(mask, grid.periodic)
-                illdef = any(w for _, _, w in comps) or len(ia.locate_droplets(field, **kw)) != len(comps)
-                sig["winding_or_overlapping_components"] = bool(illdef)
+                illdef = any(w for _, _, w in comps)
+                sig["winding_components"] = bool(illdef)
+                if len(ia.locate_droplets(field, **kw)) != len(comps):
+                    ck.count("droplet_detection.overlap_filter_decides_count")
                 ck.count("droplet_detection.ill_defined_components" if illdef else "droplet_detection.clean_components")
             # stretching the grid
             for lam in LAMBDAS:
@@ -171,11 +184,17 @@ def run_cases(ck: Check, n: int):
                 ok = (not isinstance(v, str)) and (rel_close(v, base, 1e-8) if exact else abs(2 * np.pi / v - 2 * np.pi / base) <= 1.0 * dk)
                 if not ok:
                     ck.fail(f"{method}: field multiplied by {c}: length {v} instead of {base}", {**sig, "check": "field_scale"}, {**case, "method": method, "c": c})
-            shift = tuple(rng.randrange(s) for s in grid.shape)
-            v = length(ScalarField(grid, np.roll(data, shift, axis=tuple(range(dim)))), method, **kw)
-            ok = (not isinstance(v, str)) and (rel_close(v, base, 1e-7) if exact else abs(2 * np.pi / v - 2 * np.pi / base) <= 1.0 * dk)
-            if not ok:
-                ck.fail(f"{method}: field translated by {shift} cells: length {v} instead of {base}", {**sig, "check": "translate"}, {**case, "method": method, "shift": list(shift)})
+            shifts = [tuple(rng.randrange(s) for s in grid.shape)]
+            if method == "droplet_detection":
+                # the count may only change when a component is cut differently by the periodic boundary: try cuts through every part
+                shifts += [tuple(rng.randrange(s) for s in grid.shape) for _ in range(3)]
+                shifts += [tuple((s // 2) * b for s, b in zip(grid.shape, bits)) for bits in itertools.product((0, 1), repeat=dim)][1:]
+            for shift in shifts:
+                v = length(ScalarField(grid, np.roll(data, shift, axis=tuple(range(dim)))), method, **kw)
+                ok = (not isinstance(v, str)) and (rel_close(v, base, 1e-7) if exact else abs(2 * np.pi / v - 2 * np.pi / base) <= 1.0 * dk)
+                if not ok:
+                    ck.fail(f"{method}: field translated by {shift} cells: length {v} instead of {base}", {**sig, "check": "translate"}, {**case, "method": method, "shift": list(shift)})
+                    break
             if method == "droplet_detection":
                 em = ia.locate_droplets(field, **kw)
                 want = (float(np.prod([b[1] - b[0] for b in grid.axes_bounds])) / len(em)) ** (1 / dim)
